@@ -4,6 +4,7 @@ import (
 	"bytes"
 	"fmt"
 	"math"
+	"sort"
 	"testing"
 
 	"verifharness/model"
@@ -263,7 +264,12 @@ func TestC02Enum(t *testing.T) {
 		for _, n := range bulkCounts(kind, false) {
 			counts[n] = true
 		}
+		sortedCounts := make([]int, 0, len(counts))
 		for n := range counts {
+			sortedCounts = append(sortedCounts, n)
+		}
+		sort.Ints(sortedCounts)
+		for _, n := range sortedCounts {
 			if !mine() {
 				continue
 			}
